@@ -7,7 +7,8 @@ prepare = kbridge.prepare_for('C07')    # regenerates only the generated files t
 from vlib.util import unbits
 ASSUMPTIONS = ['integer amounts and items in the cases replayed by the model; PriorityStore items are plain integers (ties are indistinguishable)',
                'containers with float (binary fractions, exact in IEEE double) and Fraction amounts are judged by the direct oracle only (harness/kamount.py)',
-               'filters are drawn from a family of five predicates']
+               'filters are drawn from a family of five predicates in the cases replayed by the model; filters that raise (once, out of the get() call that '
+               'hands them over; the caller catches the exception and goes on) are judged by the direct oracle only (harness/kfilter.py)']
 SPEC = [(9, 'store'), (1, 'plan:store')]
 
 def oracle_bounds(case, lines, runner=None):
@@ -102,7 +103,7 @@ def oracle_fcfs(case, lines, runner=None):
     return []
 
 def run(ctx):
-    from harness import kamount
+    from harness import kamount, kfilter
     if ctx.replay:
         import json
         j = json.load(open(ctx.replay))
@@ -110,6 +111,10 @@ def run(ctx):
             fails, st = kamount.run_probe(j['case'])
             return {'coverage': {'evaluations': 1, 'distinct_nontrivial': 1, 'rule': 'replayed fractional-amount container probe', 'samples': [j['case']],
                                  'fractional_amount_probes': st}, 'disagreements': [], 'oracle_failures': fails}
+        if isinstance(j.get('case'), dict) and j['case'].get('probe') == 'raising-filter':
+            fails, st = kfilter.run_probe(j['case'])
+            return {'coverage': {'evaluations': 1, 'distinct_nontrivial': 1, 'rule': 'replayed raising-filter FilterStore probe', 'samples': [j['case']],
+                                 'raising_filter_probes': st}, 'disagreements': [], 'oracle_failures': fails}
     res = kprops.run_kernel(ctx, 'C07', SPEC, 1500, 40000, attribute=kprops.stop_is_not_the_cause, oracles=[oracle_bounds, oracle_heads, oracle_handout, oracle_conservation, oracle_fcfs],
                              nontrivial=lambda c, lines: any(('pq' in l and not re.search(r'pq0 gq0', l)) for l in lines if l.startswith('S ')),
                              rule='seeded put/get/cancel histories of 2-8 processes on containers and the three stores; non-trivial = distinct history in which some request had to queue')
@@ -119,4 +124,8 @@ def run(ctx):
         fails, cov = kamount.probes(ctx)
         res['oracle_failures'] += fails
         res['coverage']['fractional_amount_probes'] = cov
+        # oracle-only cases, counted separately: FilterStore histories in which a filter raises once out of get() and its caller goes on
+        fails, cov = kfilter.probes(ctx)
+        res['oracle_failures'] += fails
+        res['coverage']['raising_filter_probes'] = cov
     return res
